@@ -633,6 +633,98 @@ def c02_reference_caller(ck, quick, rng):
             pass
 
 
+def c13_reference_multiplex(ck):
+    """examples/ping in multiplex mode serves several connections from one thread: what one connection receives must
+    depend on its own traffic only, also when a neighbour misbehaves (garbage after a valid request, leaving unread)."""
+    import socket
+    import subprocess
+    import time
+    tgt = os.path.join(BUILD, "target-repo")
+    with Lock("cargo-repo"):
+        rc, log = sh(["cargo", "build", "--offline", "--quiet", "-p", "ping"], cwd=REPO, env=dict(ENV, CARGO_TARGET_DIR=tgt), timeout=1800)
+    binp = os.path.join(tgt, "debug", "ping")
+    if rc != 0 or not os.path.exists(binp):
+        ck.tie_broken.append("examples/ping does not build: " + log[-300:])
+        return
+    path = os.path.join(BUILD, "tmp", "pingmux13-%d.sock" % os.getpid())
+    os.makedirs(os.path.dirname(path), exist_ok=True)
+    try:
+        os.unlink(path)
+    except OSError:
+        pass
+    srv = subprocess.Popen([binp, "--varlink=unix:" + path, "-m", "-t", "600"], stdout=subprocess.DEVNULL, stderr=subprocess.DEVNULL)
+
+    def ping(tok):
+        return json.dumps({"method": "org.example.ping.Ping", "parameters": {"ping": tok}}).encode() + b"\0"
+
+    def conn():
+        c = socket.socket(socket.AF_UNIX)
+        c.connect(path)
+        return c
+
+    def read_quiet(c, wait=0.6):
+        c.settimeout(wait)
+        buf = b""
+        try:
+            while True:
+                b = c.recv(65536)
+                if not b:
+                    break
+                buf += b
+        except (socket.timeout, OSError):
+            pass
+        return buf
+    try:
+        t0 = time.time()
+        while not os.path.exists(path) and time.time() - t0 < 10:
+            time.sleep(0.02)
+        for variant in ("garbage after a valid request", "leaves without reading", "two neighbours"):
+            b = conn()
+            a = conn()
+            if variant == "garbage after a valid request":
+                a.sendall(ping("A-secret-token") + b"this is not json\0")
+                read_quiet(a, 0.3)
+            elif variant == "leaves without reading":
+                a.sendall(ping("A-secret-token") * 50)
+                a.close()
+                time.sleep(0.2)
+            else:
+                a2 = conn()
+                a.sendall(ping("A-secret-token") + b"{\0")
+                time.sleep(0.2)      # one dropped connection per poll cycle (see the note on closing below)
+                a2.sendall(b"\0\0" + ping("A2-token"))
+                read_quiet(a2, 0.3)
+                a2.close()
+                time.sleep(0.2)
+            b.sendall(ping("B-token"))
+            gotb = read_quiet(b)
+            c = conn()
+            c.sendall(ping("C-token"))
+            gotc = read_quiet(c)
+            # connections are closed one at a time: the example's bookkeeping removes several closed connections of one
+            # poll cycle by stale indices (an example-only defect outside the property's anchors, noted in DESIGN.md)
+            for x in (a, b, c):
+                try:
+                    x.close()
+                except OSError:
+                    pass
+                time.sleep(0.15)
+            ck.case("pingmux13|" + variant)
+            ck.count("reference_multiplex_neighbours")
+            for who, got, tok in (("an idle connection that then sends a request", gotb, "B-token"), ("a fresh connection", gotc, "C-token")):
+                want = json.dumps({"parameters": {"pong": tok}}, separators=(",", ":")).encode() + b"\0"
+                if canon_reply_stream(got) != canon_reply_stream(want):
+                    ck.failures.append({"what": "examples/ping in multiplex mode: %s received bytes that do not follow from its own traffic" % who,
+                                        "neighbour": variant, "received": got.decode("utf-8", "replace")[:300], "expected": want.decode()})
+    finally:
+        srv.kill()
+        srv.wait()
+        try:
+            os.unlink(path)
+        except OSError:
+            pass
+
+
 NAME_POOL = ["a.b", "a.b.c", "a.bc", "a.b-c", "a.b.c1", "A.b", "a.B", "x-y.z", "a1.b2", "org.example.a", "org.example.ab",
              "org.example", "a.b.c.d", "a-b.c-d.e", "a.b.C"]
 
